@@ -203,10 +203,24 @@ int sc_close(void) { return 0; }
 randombytes_implementation g_scripted_mt = {sc_name, sc_random, sc_stir, nullptr, sc_buf, sc_close};
 
 // ---------------- workload ----------------
+// Shared-arena mode: the callers' buffers of ALL threads are carved, back to back and in schedule order, out of one
+// block that is registered as tracked memory.  Every buffer still belongs to exactly one thread (the property's
+// premise), but a library access that strays outside the buffer it was given lands in a neighbour -- usually another
+// thread's -- and is then seen by the race detector, whatever instrumentation-visible code made it.
+struct Arena { unsigned char *base = nullptr; size_t cap = 0, used = 0; bool on = false; } g_arena;
+unsigned char *arena_alloc(size_t n) {
+    if (!g_arena.on || g_arena.used + n + 1 > g_arena.cap) return nullptr;
+    unsigned char *p = g_arena.base + g_arena.used;
+    g_arena.used += n ? n : 1;
+    return p;
+}
 struct Ctx {
     int tid; uint64_t seed; Rng in; Digest out;
     std::vector<Bytes> keep;
-    unsigned char *buf(size_t n) { keep.emplace_back(n ? n : 1); return keep.back().data(); }
+    unsigned char *buf(size_t n) {
+        if (unsigned char *p = arena_alloc(n)) return p;
+        keep.emplace_back(n ? n : 1); return keep.back().data();
+    }
     unsigned char *input(size_t n) { unsigned char *p = buf(n); in.fill(p, n); return p; }
     void emit(const void *p, size_t n) { out.add(p, n); }
     void emit(long v) { out.add((uint64_t) v); }
@@ -613,6 +627,28 @@ OP(helpers_on_guarded_buffers) {
     c.emit(ok); if (ok) { c.emit(keep, n); c.emit(r1 * 100 + r2 * 10 + z); }
 }
 
+// a guarded allocation made by one thread and used/freed by another (handed over through an application-level
+// mailbox whose put/take are a release/acquire pair).  Results are constants: whether a take finds something depends
+// on the schedule.
+struct Mailbox { std::vector<std::pair<void *, size_t>> items; } g_mailbox;
+OP(guarded_put) {
+    size_t n = 1 + c.in.below(5000); void *p;
+    { LibScope l; p = sodium_malloc(n); if (p) memset(p, 0x5a, n); }
+    if (p) { g_mailbox.items.push_back({p, n}); if (tls_tid >= 0) simrt::sync_release(&g_mailbox, tls_tid); RT.counters["probe.guarded_allocation_handed_over"]++; }
+    c.emit(1);
+}
+OP(guarded_take) {
+    if (!g_mailbox.items.empty()) {
+        if (tls_tid >= 0) simrt::sync_acquire(&g_mailbox, tls_tid);
+        auto it = g_mailbox.items.back(); g_mailbox.items.pop_back();
+        unsigned char *p = (unsigned char *) it.first; bool ok;
+        { LibScope l; ok = p[0] == 0x5a && p[it.second - 1] == 0x5a; sodium_mprotect_readonly(p); ok = ok && p[it.second / 2] == 0x5a; sodium_mprotect_readwrite(p); p[0] = 1; sodium_free(p); }
+        if (!ok) simrt::fatal("handed-over-allocation-corrupt", "guarded_take", "a guarded allocation handed from one thread to another lost its contents");
+        RT.counters["probe.guarded_allocation_freed_by_other_thread"]++;
+    }
+    c.emit(1);
+}
+
 static void verif_misuse_handler(void) {}
 // public API that is rarely called but must be as thread-safe as the rest: installing the (same) misuse handler takes
 // the library lock; stir/close of the installed random source touch only per-thread state on this platform
@@ -638,7 +674,7 @@ const OpDesc OPS[] = {
     {"onetimeauth_multi", op_onetimeauth_multi}, {"siphashx24", op_siphashx24}, {"hkdf_sha512", op_hkdf_sha512}, {"secretbox_detached", op_secretbox_detached}, {"box_xchacha", op_box_xchacha},
     {"sign_convert", op_sign_convert}, {"sign_combined", op_sign_combined}, {"ed25519_scalars", op_ed25519_scalars}, {"ristretto_hash", op_ristretto_hash}, {"h2c", op_h2c},
     {"pwhash_str_argon2i", op_pwhash_str_argon2i}, {"base64_variants", op_base64_variants}, {"kx_server", op_kx_server},
-    {"helpers_on_guarded_buffers", op_helpers_on_guarded_buffers},
+    {"helpers_on_guarded_buffers", op_helpers_on_guarded_buffers}, {"guarded_put", op_guarded_put}, {"guarded_take", op_guarded_take},
     {"aegis_detached", op_aegis_detached}, {"xchacha_detached", op_xchacha_detached}, {"stream_xor_ic", op_stream_xor_ic}, {"salsa20_xor_ic", op_salsa20_xor_ic}, {"box_detached", op_box_detached},
     {"sign_ed25519ph", op_sign_ed25519ph}, {"ristretto_arith", op_ristretto_arith}, {"ed25519_point_arith", op_ed25519_point_arith}, {"verify_and_hex", op_verify_and_hex},
     {"secretstream_rekey", op_secretstream_rekey}, {"deterministic_rng", op_deterministic_rng}, {"scrypt_str", op_scrypt_str}, {"kdf_hkdf_state", op_kdf_hkdf_state},
@@ -659,6 +695,7 @@ struct PlanT {
     unsigned pct_depth = 2;
     bool preinit = false; // main calls sodium_init before the threads start (the "after initialisation" clause on its own)
     bool inline_main = false;  // thread 0 is the main thread; the others come into existence when first scheduled
+    bool shared_arena = false;  // all threads' caller buffers packed into one tracked block
     unsigned env_fault_pct = 0; // getrandom EINTR/EAGAIN, mlock ENOMEM (per-thread deterministic)
     bool sysconf_fails = false; // environment fault: sysconf(_SC_PAGESIZE) fails inside sodium_init (the library falls back to its default)
     std::vector<std::pair<uint64_t, int>> sched; // strategy "explicit": deviations (decision index, thread) from run-to-completion order
@@ -747,6 +784,15 @@ Outcome run_plan(const PlanT &p, int strategy, const std::vector<int> &seq_order
     RT.est_steps = 80 * (uint64_t) p.nthreads + 250 * (uint64_t) p.ops.size() + 50; // where PCT places its priority-change points
     RT.reset(p.nthreads, p.sched_seed, strategy, p.pct_depth);
     RT.mark = ENV.in_init;
+    g_mailbox.items.clear();
+    g_arena.on = p.shared_arena && detect;
+    if (g_arena.on) {
+        static unsigned char *mem = nullptr;
+        const size_t CAP = 192u << 10;
+        if (!mem) mem = (unsigned char *) malloc(CAP);
+        g_arena.base = mem; g_arena.cap = CAP; g_arena.used = 0;
+        simrt::register_block((uintptr_t) mem, CAP, 'A', true);
+    }
     if (p.preinit) {
         // shared read-only objects (only meaningful once the library is initialised)
         static SharedRO *storage = nullptr;
@@ -778,7 +824,7 @@ struct C19 {
     static const char *name() { return "c19_threads"; }
     static const char *level() { return "exploration"; }
     static const char *rule() {
-        return "seeded plans: N in 2..16 real threads, each calling sodium_init() and then 0-12 operations drawn from an 84-entry table covering every API family (no barrier "
+        return "seeded plans: N in 2..16 real threads, each calling sodium_init() and then 0-12 operations drawn from an 86-entry table covering every API family (no barrier "
                "between init and workload), under RNG configuration {default sysrandom over simulated getrandom, internal, scripted} and lock variant " C19_LOCK_VARIANT
                ". Exactly one thread is runnable at a time; a seeded scheduler (random walk / PCT depth 1-4 / loser-first / coarse) decides at every instrumented access to "
                "tracked memory, every lock/unlock, atomic and wrapped system call. Oracles: own vector-clock happens-before race detector over the TSan compiler ABI "
@@ -817,6 +863,7 @@ struct C19 {
         p.preinit = k.chance(1, 5);
         p.inline_main = !p.preinit && k.chance(1, 2);
         p.sysconf_fails = k.chance(1, 8);
+        p.shared_arena = k.chance(1, 2);
         p.env_fault_pct = k.chance(1, 2) ? 0 : (unsigned) k.range(5, 40);
         size_t per_thread_max = p.nthreads > 8 ? 3 : p.nthreads > 4 ? 6 : (thorough ? 12 : 8);
         for (int t = 0; t < p.nthreads; t++) {
@@ -842,7 +889,7 @@ struct C19 {
     static Json to_json(const Plan &p) {
         Json j = Json::object();
         j["knobs"] = p.pk; j["content_seed"] = p.content_seed; j["sched_seed"] = p.sched_seed; j["threads"] = p.nthreads;
-        j["strategy"] = simrt::strategy_name[p.strategy]; j["pct_depth"] = p.pct_depth; j["rng"] = rng_name[p.rng]; j["preinit"] = p.preinit; j["inline_main"] = p.inline_main; j["sysconf_fails"] = p.sysconf_fails; j["env_fault_pct"] = p.env_fault_pct;
+        j["strategy"] = simrt::strategy_name[p.strategy]; j["pct_depth"] = p.pct_depth; j["rng"] = rng_name[p.rng]; j["preinit"] = p.preinit; j["inline_main"] = p.inline_main; j["sysconf_fails"] = p.sysconf_fails; j["env_fault_pct"] = p.env_fault_pct; j["shared_arena"] = p.shared_arena;
         if (p.strategy == simrt::S_TRACE) {
             Json sc = Json::array();
             for (auto &d : p.sched) { Json e = Json::array(); e.push(d.first); e.push(d.second); sc.push(e); }
@@ -861,7 +908,7 @@ struct C19 {
         for (int i = 0; i < simrt::S_NSTRATEGIES; i++) if (j.at("strategy").str() == simrt::strategy_name[i]) p.strategy = i;
         p.pct_depth = (unsigned) j.at("pct_depth").u64(2);
         for (int i = 0; i < 3; i++) if (j.at("rng").str() == rng_name[i]) p.rng = i;
-        p.preinit = j.at("preinit").boolean(); p.inline_main = j.at("inline_main").boolean(); p.sysconf_fails = j.at("sysconf_fails").boolean(); p.env_fault_pct = (unsigned) j.at("env_fault_pct").u64();
+        p.preinit = j.at("preinit").boolean(); p.inline_main = j.at("inline_main").boolean(); p.sysconf_fails = j.at("sysconf_fails").boolean(); p.env_fault_pct = (unsigned) j.at("env_fault_pct").u64(); p.shared_arena = j.at("shared_arena").boolean();
         for (auto &d : j.at("schedule_deviations").a) if (d.a.size() == 2) p.sched.push_back({d.a[0].u64(), (int) d.a[1].i64()});
         for (auto &q : j.at("ops").a) {
             Op o; o.thread = (int) q.at("t").i64();
@@ -924,6 +971,7 @@ struct C19 {
         res.count("knob.threads=" + std::to_string(p.nthreads));
         res.count(std::string("knob.preinit=") + (p.preinit ? "yes" : "no"));
         res.count(std::string("knob.inline_main=") + (p.inline_main ? "yes" : "no"));
+        res.count(std::string("knob.shared_arena=") + (p.shared_arena ? "yes" : "no"));
         if (g_sysconf_failed) res.count("fault.sysconf_pagesize_failed", g_sysconf_failed);
         if (g_eintr_fired) res.count("fault.getrandom_eintr_eagain", g_eintr_fired);
         if (g_mlock_refused) res.count("fault.mlock_refused", g_mlock_refused);
@@ -1064,6 +1112,7 @@ struct C19 {
         if (p.inline_main) { Plan c = p; c.inline_main = false; out.push_back(c); }
         if (p.sysconf_fails) { Plan c = p; c.sysconf_fails = false; out.push_back(c); }
         if (p.env_fault_pct) { Plan c = p; c.env_fault_pct = 0; out.push_back(c); }
+        if (p.shared_arena) { Plan c = p; c.shared_arena = false; out.push_back(c); }
         if (p.strategy != simrt::S_TRACE && p.sched_seed > 3) for (uint64_t s = 1; s <= 3; s++) { Plan c = p; c.sched_seed = s; out.push_back(c); }
         return out;
     }
